@@ -1081,3 +1081,63 @@ def r_applied_monotone(ctx):
                                   'discards acknowledged entries beyond it (call site %s)' % site, instance=inst2)
     ctx.require(n_w >= 2, 'writes of the applied index not found')
     ctx.expect_min(2)
+
+
+@rule('R-hint-floor', 'a follower that lowers the next-index hint of a failure reply below the received position keeps it '
+                      'above its first stored index: a hint at (or below) the compaction base can never be matched and the '
+                      'exchange repeats forever')
+def r_hint_floor(ctx):
+    P, R = ctx.P, ctx.R
+    info = ae_region(ctx)
+    ex, res = info['ex'], info['res']
+    h = R.handler
+    cfg = ex.cfg
+    idx_pos, term_pos = journal_positions(P)
+    first = ex.tb.term(U.parse_expr('self.%s[0][%d]' % (R.log, idx_pos)))
+    n_replies = 0
+    for call, succ, reset, nxt in ack_calls(ctx):
+        if not (isinstance(succ, ast.Constant) and succ.value is False):
+            continue
+        cn = U.node_containing(cfg, call)
+        if cn is None or not res.reached(cn.id):
+            continue
+        n_replies += 1
+        inst = 'failure reply `%s`: hint not lowered to the first stored index' % unparse(call)[:60]
+        if not isinstance(nxt, ast.Name):
+            ctx.ok(inst, h.loc(call), 'hint is %s' % ('the default (own log end + 1)' if nxt is None or isinstance(nxt, ast.Constant) else '`%s`' % unparse(nxt)), nontrivial=False)
+            continue
+        # decrements of the hint variable inside the region
+        decs = []
+        for n in cfg.nodes:
+            if n.kind != 'stmt' or n.ast is None or not res.reached(n.id):
+                continue
+            a = n.ast
+            amt = None
+            if isinstance(a, ast.AugAssign) and isinstance(a.op, ast.Sub) and isinstance(a.target, ast.Name) and a.target.id == nxt.id:
+                amt = a.value
+            elif isinstance(a, ast.Assign) and len(a.targets) == 1 and isinstance(a.targets[0], ast.Name) and a.targets[0].id == nxt.id and isinstance(a.value, ast.BinOp) \
+                    and isinstance(a.value.op, ast.Sub) and isinstance(a.value.left, ast.Name) and a.value.left.id == nxt.id:
+                amt = a.value.right
+            if amt is not None and cn.id in cfg.reachable_from(n.id, follow_exc=False):
+                decs.append((n, amt))
+        if not decs:
+            ctx.ok(inst, h.loc(call), 'the hint `%s` is never decreased in the region' % nxt.id)
+            continue
+        bad = None
+        for n, amt in decs:
+            ctx.tick()
+            after = ex.tb.term(ast.BinOp(left=ast.Name(id=nxt.id, ctx=ast.Load()), op=ast.Sub(), right=amt))
+            ok, cex = U.must(ctx, res, n.id, ('lt', first, after))
+            if not ok:
+                bad = (n, cex)
+                break
+        if bad is None:
+            ctx.ok(inst, h.loc(call), 'every decrement is guarded so that the lowered hint stays above the first stored index')
+        else:
+            n, cex = bad
+            ctx.violation('%s:hint-lowered-to-log-start' % h.qualname, h.loc(n.ast),
+                          'the failure hint `%s` is lowered by `%s` on a path where the result is not known to stay above the first stored index: a hint equal to the '
+                          'compaction base makes the leader send a previous entry the follower does not hold, the follower answers with a reset, and the pair repeats '
+                          'this forever (the follower never catches up): %s' % (nxt.id, unparse(n.ast), res.path_str(n.id, cex)), instance=inst)
+    ctx.require(n_replies >= 1, 'no failure reply in the append_entries region')
+    ctx.expect_min(1)
